@@ -5,7 +5,7 @@
     against IO/Reader.v reader_params -- for all float inputs. *)
 From Coq Require Import ZArith List Bool.
 From Flocq Require Import IEEE754.BinarySingleNaN.
-From AV Require Import Base.PyList Base.PyFloat Tok.Model IO.Reader.
+From AV Require Import Base.PyList Base.PyFloat Tok.Model IO.Reader IO.Layers.
 From AVGen Require Import TieTac GenReader.
 Import ListNotations.
 Open Scope Z_scope.
@@ -22,4 +22,15 @@ Proof.
   destruct hop_dur as [h|], max_read as [t|]; cbn [negb andb]; timeout 200 walk.
 Qed.
 
+(** the read methods of the wrappers, given what the layer below answers to the one request they make *)
+Lemma tie_lim_read S (inner : Z -> option (list S)) mx nr n : lim_read_gen inner mx nr n = lim_layer mx nr n inner.
+Proof. unfold lim_read_gen, lim_layer. cbv zeta. destruct (Z.min (mx - nr) n <=? 0); [reflexivity|]. destruct (inner _); reflexivity. Qed.
+
+Lemma tie_rec_read S (inner : Z -> option (list S)) cache n : rec_read_gen inner cache n = rec_layer cache n inner.
+Proof. unfold rec_read_gen, rec_layer. cbv zeta. destruct (inner n); reflexivity. Qed.
+
+Lemma tie_fixed_read S (inner : Z -> option (list S)) W : fixed_read_gen inner W = fixed_layer W inner.
+Proof. unfold fixed_read_gen, fixed_layer. destruct (inner W); reflexivity. Qed.
+
 Print Assumptions tie_reader_params.
+Print Assumptions tie_lim_read.
